@@ -493,7 +493,7 @@ def run_main(chk, wd):
     chk.obligation('translator: nsdict is injective (prefix:local identifies the qualified name)', m['nsdict_injective'])
     default_styles = m['default_styles']
     # 2 prove
-    chk.prove(modules=['OdfModel.Props.C18', 'OdfModel.XhtmlLemmas', 'OdfModel.XhtmlText', 'OdfModel.XhtmlEscape'],
+    chk.prove(modules=['OdfModel.Props.C18', 'OdfModel.XhtmlLemmas', 'OdfModel.XhtmlText', 'OdfModel.XhtmlEscape', 'OdfModel.MoinLemmas'],
               drivers=['drv_xhtml'])
     chk.notes.append('translate+prove %.1fs' % (time.time() - t0))
     t0 = time.time()
@@ -526,6 +526,18 @@ def run_main(chk, wd):
             for key, line in corr_lines(r, default_styles):
                 pending.append((sp, r, key, line))
     chk.notes.append('oracle phase %.1fs' % (time.time() - t0))
+
+    def deep_search():
+        """a proof or the correspondence broke and the oracle saw nothing yet: look at more documents (oracle only)"""
+        for i in range(1500 if chk.tier == 'thorough' else 600):
+            g = c18gen.Gen(chk.rng, maxdepth=5)
+            spec = g.doc()
+            res, nres, fails = check_spec(spec, wd)
+            chk.count('deep_search_docs')
+            for sig, detail in fails:
+                if chk.fail(sig, {'spec': spec}, detail) == 'violation':
+                    return
+    chk.deep_search = deep_search
     t0 = time.time()
     answers = drv.batch([p[3] for p in pending if p[3] is not None])
     it = iter(answers)
